@@ -60,9 +60,55 @@ def gen(ctx, prop):
                                                    "world": world.replace("-raw", "")},
                                  start_id=len(scripts), limit=walks * mult, rng=ctx.rng)
         scripts += sc
+    if prop == "C13":
+        scripts += list_matrices(ctx, quick)
     for i, s in enumerate(scripts):
         s["id"] = i
     return scripts
+
+
+def list_matrices(ctx, quick):
+    """C13: the full (since, until, reverse) matrix - every entry, absent, unknown - on both replicas of
+    linear logs (written locally, replicated in one batch / entry by entry / reopened) and of FORKED logs
+    (both devices write concurrently, then exchange), for the metadata and the message log"""
+    out = []
+
+    def op(d, kind):
+        return {"act": "op", "d": d, "s": kind, "x": 0, "y": 0, "res": {}}
+
+    def matrix(n):
+        steps = []
+        ids = list(range(0, n + 1)) + [n + 5]          # 0 = absent, n+5 = unknown identifier
+        for d in ("a1", "a2"):
+            for since in ids:
+                for until in ids:
+                    for rev in ("fwd", "rev"):
+                        steps.append({"act": "list", "d": d, "s": rev, "x": since, "y": until, "res": {}})
+        return steps
+    shapes = [("lin-batch", 3, 0), ("lin-each", 3, 0), ("lin-reopen", 2, 0), ("fork", 2, 1), ("fork", 1, 2), ("fork", 2, 2)]
+    if not quick:
+        shapes += [("lin-batch", 5, 0), ("lin-each", 4, 0), ("fork", 3, 2), ("fork", 2, 3), ("fork", 3, 3), ("lin-batch", 0, 0)]
+    for log, kinds in (("metadata", ["en", "dis", "rs"]), ("message", ["msg"])):
+        for shape, i, j in shapes:
+            steps = []
+            for k in range(i):
+                steps.append(op("a1", kinds[k % len(kinds)]))
+            for k in range(j):
+                steps.append(op("a2", kinds[(k + 1) % len(kinds)]))
+            n = i + j
+            if shape == "lin-each":
+                for e in range(1, i + 1):
+                    steps.append({"act": "deliver", "d": "a2", "s": "-", "x": e, "y": 0, "res": {}})
+            elif n > 0:
+                if i:
+                    steps.append({"act": "deliver", "d": "a2", "s": "-", "x": i, "y": 0, "res": {}})
+                if j:
+                    steps.append({"act": "deliver", "d": "a1", "s": "-", "x": n, "y": 0, "res": {}})
+            if shape == "lin-reopen":
+                steps += [{"act": "reopen", "d": "a1", "s": "-", "x": 0, "y": 0, "res": {}}, {"act": "reopen", "d": "a2", "s": "-", "x": 0, "y": 0, "res": {}}]
+            steps += matrix(n)
+            out.append({"id": 0, "cfg": {"contacts": 1, "groups": 1, "plan": "matrix-" + shape, "log": log, "world": "account"}, "steps": steps})
+    return out
 
 
 def interesting(s):
